@@ -242,6 +242,20 @@ def run(ctx):
             if kind == "string-indexed":
                 idx_ok = any(x.k == "index" and strip_refs(x.a[1]).k == "arg" and strip_refs(x.a[1]).a[0] == 2 for x in v.walk()) or \
                     any(x.k == "call" and "Index" in x.a[0] and strip_refs(x.a[1][1]).k == "arg" and strip_refs(x.a[1][1]).a[0] == 2 for x in v.walk())
+            # nothing else happens to the bytes: the wrapper consists of the accessor, value-preserving conversions and the hand-over
+            other_ops = []
+            for (bb2, t2) in b.calls():
+                n2 = callee_name(t2)
+                if n2 == want[0] or n2.endswith("is_null") or n2.startswith("core::panicking::") or n2.startswith("std::rt::") or _is_conv_call(n2) \
+                        or n2.endswith("CString::from_vec_unchecked") or n2.endswith("CString::into_raw") or "NonNull::<T>::" in n2 or "ub_checks" in n2 \
+                        or "precondition_check" in n2 or n2.endswith("::index") or n2.endswith("intrinsics::size_of") or n2.endswith("::fmt::Arguments::<'a>::new") \
+                        or "panicking::assert_failed" in n2:
+                    continue
+                other_ops.append((bb2, n2))
+            if other_ops:
+                r3.violation("pair:%s" % sym, "%s also applies %s between reading %s and handing the bytes out — the returned string is no longer the value the Rust API reports"
+                             % (sym, other_ops[0][1], meth), site_of(b, other_ops[0][0]))
+                continue
             if src is None or not owned or not idx_ok:
                 r3.violation("pair:%s" % sym, "the returned string is built from %r, not from an owned copy of %s(%s)" % (peel_conv(v), meth, "index" if kind == "string-indexed" else ""),
                              common.fn_line(prog, k))
@@ -367,6 +381,17 @@ def run(ctx):
             r6.ok("data:%s" % fname, "no NUL")
     r6.assume("layout files supplied at run time contain no NUL in their key values")
     r6.floor(5, "key table + 4 data files")
+
+
+CONV_SUFFIXES = ("::clone", "::into", "::into_bytes", "::to_owned", "::to_string", "::to_vec", "::as_bytes", "::as_str", "::from", "::deref", "::as_ref",
+                 "::borrow", "::into_boxed_str", "::into_string", "::into_vec", "::to_bytes", "::as_slice", "::into_owned", "::as_mut_vec")
+
+
+def _is_conv_call(n):
+    """std calls that hand a string / byte value on unchanged (possibly copying it)."""
+    if not (n.startswith("std::") or n.startswith("core::") or n.startswith("alloc::") or n.startswith("<")):
+        return False
+    return any(n.endswith(s_) for s_ in CONV_SUFFIXES) and "::as_mut_vec" not in n
 
 
 def _norm_ptr(e):
